@@ -18,6 +18,7 @@ import (
 	"fmt"
 	"os"
 	"runtime/debug"
+	"sort"
 	"strings"
 	"sync"
 
@@ -38,6 +39,29 @@ type sys struct {
 	st     *mavl.Store
 	roots  [][]byte
 	models []map[string]string
+	hist   string // the batches applied so far (identifies the execution for the once-only families)
+}
+
+// once decides whether the calling execution evaluates a once-only family: the first history to ask
+// owns the key, and a re-execution of that same history (violation confirmation, replay) owns it
+// again, so failures stay reproducible.
+var (
+	onceMu    sync.Mutex
+	onceOwner = map[string]string{}
+	onceFull  = map[string]bool{}
+)
+
+func once(set, key, hist string) bool {
+	onceMu.Lock()
+	defer onceMu.Unlock()
+	k := set + "\x00" + key
+	o, ok := onceOwner[k]
+	if !ok {
+		onceOwner[k] = hist
+		run.Seen(set, key)
+		return true
+	}
+	return o == hist
 }
 
 type write struct{ k, v string }
@@ -67,6 +91,7 @@ func (s *sys) commit(ws []write) string {
 	}
 	s.roots = append(s.roots, root)
 	s.models = append(s.models, m)
+	s.hist += fmt.Sprintf("%q;", ws)
 	return ""
 }
 
@@ -213,7 +238,8 @@ func (s *sys) oracle(fullSubst *int32Budget) string {
 	db, cfg := s.st.GetDB(), s.st.VerifTreeCfg()
 	// completeness at every committed root
 	for i, root := range s.roots {
-		for k, v := range s.models[i] {
+		for _, k := range sortedKeys(s.models[i]) {
+			v := s.models[i][k]
 			var proof []byte
 			var err error
 			if p := vx.Catch(func() { proof, err = mavldb.GetKVPairProof(db, root, []byte(k), cfg) }); p != "" {
@@ -246,7 +272,8 @@ func (s *sys) oracle(fullSubst *int32Budget) string {
 	// soundness and robustness at the newest root
 	li := len(s.roots) - 1
 	root := s.roots[li]
-	for k, v := range s.models[li] {
+	for _, k := range sortedKeys(s.models[li]) {
+		v := s.models[li][k]
 		proof, _ := mavldb.GetKVPairProof(db, root, []byte(k), cfg)
 		var dec types.MAVLProof
 		if err := proto.Unmarshal(proof, &dec); err != nil {
@@ -254,7 +281,13 @@ func (s *sys) oracle(fullSubst *int32Budget) string {
 		}
 		gen := eff(&dec)
 		K, V := []byte(k), []byte(v)
-		heavy := !run.Seen("heavy", vx.H(s.cfg.Name, root, k, proof))
+		// the verifier is a function of (root,key,value,proof bytes) only: the families below are
+		// evaluated once per distinct (root,key,honest proof bytes) reached by the enumeration
+		ck := vx.H(root, k, proof)
+		if !once("claims", ck, s.hist) {
+			continue
+		}
+		heavy := once("heavy", vx.H(root, k), s.hist) // bit-flip families once per distinct (root,key)
 		// (1) false claims with the honest proof
 		vals := []string{flipVal(v), "", v + "\x00", v[:1]}
 		for b := 0; b < len(v)*8; b++ {
@@ -317,7 +350,7 @@ func (s *sys) oracle(fullSubst *int32Budget) string {
 			}
 		}
 		// (3) every proper prefix and single-byte substitutions of the honest proof bytes
-		if !run.Seen("proofs", string(proof)) {
+		if once("proofs", string(proof), s.hist) { // byte-level families once per distinct honest proof
 			for n := 0; n < len(proof); n++ {
 				if f := judge("prefix", true, gen, root, K, V, proof[:n]); f != "" {
 					return f + fmt.Sprintf(" (first %d of %d proof bytes)", n, len(proof))
@@ -326,7 +359,13 @@ func (s *sys) oracle(fullSubst *int32Budget) string {
 					return f
 				}
 			}
-			all := fullSubst.take()
+			onceMu.Lock()
+			all, decided := onceFull[ck]
+			if !decided {
+				all = fullSubst.take()
+				onceFull[ck] = all
+			}
+			onceMu.Unlock()
 			for pos := 0; pos < len(proof); pos++ {
 				subs := []byte{0x00, 0xff, proof[pos] ^ 0x01, proof[pos] ^ 0x80, proof[pos] + 1}
 				if all {
@@ -352,6 +391,15 @@ func (s *sys) oracle(fullSubst *int32Budget) string {
 		}
 	}
 	return ""
+}
+
+func sortedKeys(m map[string]string) []string {
+	var l []string
+	for k := range m {
+		l = append(l, k)
+	}
+	sort.Strings(l)
+	return l
 }
 
 func proofNodes(b []byte) int {
@@ -397,9 +445,15 @@ func (h harness) seq(r *vx.Run, budget *int32Budget) *vx.Seq[*sys] {
 	for i := 0; i+1 < len(h.keys); i++ {
 		ops = append(ops, []write{{h.keys[i+1], "v1"}, {h.keys[i], "v2"}})
 	}
-	q := &vx.Seq[*sys]{Run: r, Name: h.name, NumOps: len(ops), MaxDepth: h.depth, Workers: 1}
+	workers := 6
+	if h.cfg.Prune {
+		workers = 1 // pruning bookkeeping reads/writes the process-global maxBlockHeight
+	}
+	q := &vx.Seq[*sys]{Run: r, Name: h.name, NumOps: len(ops), MaxDepth: h.depth, Workers: workers}
 	q.New = func() *sys {
-		mvx.ResetGlobals(h.cfg)
+		if h.cfg.Prune {
+			mvx.ResetGlobals(h.cfg)
+		}
 		return &sys{cfg: h.cfg, st: mvx.Open(h.cfg, "memdb", "")}
 	}
 	q.OpName = func(i int) string {
